@@ -13,7 +13,7 @@ func init() {
 		Level:     "model_checking",
 		Build:     "sched",
 		Technique: "stateless model checking of the real code under a cooperative scheduler: every sync/atomic/channel/go operation of the current sources (rewritten at check time by an AST instrumenter) and every transport operation is a scheduling point; depth-first enumeration of all schedules up to a preemption bound with happens-before state caching",
-		Rule:      "scenarios X1-X5, X7-X18 (X6 thorough): connections that are idle / mid-message / about to start a handler / inside a handler (handlers carry yield points) x 1-2 concurrent Close callers (+ a later second Close); all schedules with <= 2 preemptions (quick); thorough: ALL schedules (unbounded, made finite by the happens-before state cache) for X1, X2, X3, X5, X6 and <= 4 preemptions for X4, X7; an execution is one schedule run to completion; distinct = distinct happens-before states",
+		Rule:      "scenarios X1-X5, X7-X20 (X6 thorough): connections that are idle / mid-message / about to start a handler / inside a handler (handlers carry yield points) x 1-2 concurrent Close callers (+ a later second Close); all schedules with <= 2 preemptions (quick); thorough: ALL schedules (unbounded, made finite by the happens-before state cache) for X1, X2, X3, X5, X6 and <= 4 preemptions for X4, X7; an execution is one schedule run to completion; distinct = distinct happens-before states",
 		Assumptions: []string{
 			"the exploration is exhaustive up to the preemption bound for data-race-free code (race freedom is C15's oracle)",
 			"state caching merges schedules with equal happens-before keys (per object, the ordered sequence of (thread, op index)); the oracle's own events are operations on a shared log object, so their order is part of the key",
